@@ -118,6 +118,9 @@ type history struct {
 	// past its writable window: the collector removes the log once everything is acknowledged, and no write arrives
 	// for the family after that (the history ends at the first append after a removal).
 	Late bool `json:"late_writes,omitempty"`
+	// FailData: the n-th flushData of the history (0-based) fails when it creates its table file (a full disk): the
+	// flush reports the error, the memory database it froze stays pending, the node goes on
+	FailData []int `json:"fail_data,omitempty"`
 }
 
 func (h history) String() string {
@@ -128,6 +131,9 @@ func (h history) String() string {
 	out := strings.Join(s, ";")
 	if len(h.Corrupt) > 0 {
 		out += fmt.Sprintf(" corrupt-entries=%v", h.Corrupt)
+	}
+	if len(h.FailData) > 0 {
+		out += fmt.Sprintf(" failing-data-flushes=%v", h.FailData)
 	}
 	if h.Late {
 		out += " [writable 3d behind]"
@@ -425,6 +431,11 @@ func installSeams() {
 	ts := table.VerifGetSeams()
 	table.VerifSetSeams(table.VerifSeams{
 		NewBufioWriter: func(f string) (bufioutil.BufioWriter, error) {
+			if failNextTable && strings.Contains(f, "/segment/") {
+				failNextTable = false
+				failedTable = true
+				return nil, fmt.Errorf("injected: cannot create table file %s", short(f))
+			}
 			w, err := ts.NewBufioWriter(f)
 			rec.At("create " + short(f))
 			if err != nil {
@@ -531,6 +542,7 @@ func runHistoryOnce(rep *vevid.Report, h history) (logRemoved bool) {
 	pageRec.After = func(op, rel string) { rec.At("page " + op + " " + rel) }
 	defer func() { rec = nil; pageRec = nil }()
 	acked := model{}
+	nDataFlush := 0
 	logBase = 0
 	cur = note{Acked: acked, InFlight: -1, LogBase: logBase}
 	rec.Pause()
@@ -573,8 +585,21 @@ func runHistoryOnce(rep *vevid.Report, h history) (logRemoved bool) {
 		case opFlushData:
 			shard, _ := n.box.DB.GetShard(models.ShardID(1))
 			f, err := shard.GetOrCrateDataFamily(familyTime)
+			failing := false
+			for _, k := range h.FailData {
+				if k == nDataFlush {
+					failing = true
+				}
+			}
+			nDataFlush++
 			if err == nil {
+				failNextTable, failedTable = failing, false
 				err = f.Flush()
+				failNextTable = false
+				if failing && failedTable {
+					rep.Count("data_flushes_failed_by_injection", 1)
+					err = nil // the failure is the scenario, not a finding
+				}
 			}
 			opErr = err
 		case opWalGC:
@@ -871,7 +896,14 @@ const (
 	O = opReopen
 )
 
+// failNextTable: the next table file of a data family cannot be created; failedTable: that happened
+var failNextTable, failedTable bool
+
 var curated = []history{
+	// a data flush that fails (table file cannot be created), more entries, then the next flush cycle
+	{Ops: []int{A, A, R, R, M, I, D, A, R, M, I, D}, FailData: []int{0}},
+	{Ops: []int{A, R, M, I, D, A, A, R, R, M, I, D, G}, FailData: []int{0}},
+	{Ops: []int{A, R, M, I, D, A, R, M, I, D, A, R, M, I, D}, FailData: []int{1}},
 	// a corrupt log entry (cannot be decompressed) behind a good, still unflushed one: skipping it must not
 	// acknowledge what is not flushed yet
 	{Ops: []int{A, A, R, R}, Corrupt: []int{1}},
